@@ -25,6 +25,7 @@ RULE = (
     "object, forged second instance, the class}; the same look-alikes stored through an attribute first, then instances leaving that attribute out (new / copy / deepcopy / updated), next to a subclass overriding the default; attribute get/set/del; non-trivial = nested "
     "shape, or a look-alike argument"
 )
+RULE += ' Round 16: every obtainer again after two calls of the type that ended with an error (positional / keyword argument).'
 RULE += ' Rounds 10-11: DEEP chains of 4-8 (12) containers under one state attribute; attributes whose annotation admits MISSING with another default, given an explicit MISSING.'
 ASSUMPTIONS = [
     "a round trip that raises for reasons unrelated to Missing (pickling a State instance) "
@@ -237,6 +238,12 @@ def programs(tier: str):
             if o == "call" and s != "M":
                 continue
             yield {"family": "obtain", "shape": s, "how": o}
+    for failed in ("arg", "kwarg"):
+        for s in [sh for sh in shapes(BOUNDS[tier]["depth"]) if sh == "M" or not has_state(sh)][:6]:
+            for o in OBTAINERS:
+                if o == "call" and s != "M":
+                    continue
+                yield {"family": "obtain", "shape": s, "how": o, "after_failed": failed}
     for name in LOOKALIKES:
         yield {"family": "predicates", "value": name}
     # a look-alike value went through the same attribute before: the next instance that leaves
@@ -260,6 +267,14 @@ def execute(program, ch: Chooser) -> Result:  # noqa: C901, PLR0912, PLR0915
         original = build(shape)
         skipped = False
         result = None
+        if program.get("after_failed"):
+            # an earlier attempt to obtain a missing value ENDED WITH AN ERROR (the type takes no
+            # arguments): whatever is obtained afterwards is still the one MISSING object
+            for _ in range(2):
+                try:
+                    Missing("n/a") if program["after_failed"] == "arg" else Missing(value=None)  # type: ignore[call-arg]
+                except Exception:  # noqa: BLE001, S110
+                    pass
         try:
             if how == "call":
                 result = Missing()
